@@ -41,7 +41,7 @@ SCOPE = ('for every shipped configuration (read with a small reader of the YAML 
          'spaces agree, the input dict is unchanged, a second build agrees; factory(name, **kw) is the registered function with exactly the accepted keywords, '
          'for symbolic numeric parameters. String-level rejection and file identity are concrete side checks')
 BOUNDS = {
-    'quick': dict(files='yaml/*.yaml (21), examples/coin_env.yaml; registered_envs/*.yaml are byte-identical copies (side check)',
+    'quick': dict(entries='every registered name of the six registries as a YAML-level entry, any subset of its optional parameters, nested entries two levels deep: input unchanged, second build agrees, equals the hand assembly', files='yaml/*.yaml (21), examples/coin_env.yaml; registered_envs/*.yaml are byte-identical copies (side check)',
                   transition='lazily symbolic 3x3 states over the alphabet of the declared state space (scanning dynamics: 1x3), all actions of the action space',
                   reward_observation='2 reset layouts per configuration, agent at every cell of a 4x4 window x 4 headings x all actions',
                   reset='same symbolic draws for configurations up to 5x5; concrete seeds 0..4 beyond', shapes_layouts='entries in [-1, 3] plus non-integers'),
